@@ -166,10 +166,17 @@ def stages_on_free_running_epochs(ctx, replay, thorough):
         for k in range(1 if not thorough else 4):
             rep_file = ctx.path("race-%s-%d.json" % (procs, k))
             code, rep, out = ctx.vh(["race-epochs", "-report", rep_file, "-runs", "3" if not thorough else "6", "-epochs",
-                                     "5" if not thorough else "12", "-seed", str(ctx.seed * 100 + k)], pkg="vh_genome", race=True,
+                                     "5" if not thorough else "12", "-seed", str(ctx.seed * 100 + k)] + (["-long"] if k == 0 and procs in ("4", "16") else []),
+                                    pkg="vh_genome", race=True,
                                     env={"GOMAXPROCS": procs, "GORACE": "halt_on_error=0 exitcode=0"}, expect_report=rep_file, timeout=3000)
             runs += 1
             ctx.evaluations += rep.get("evaluations", 0)
+            lr = (rep.get("extra") or {}).get("long_record_innovations_in_one_generation")
+            if lr:
+                ctx.extra.setdefault("longest_innovation_record_of_a_generation_in_race_runs", []).append(lr)
+            for f in rep.get("failures", [])[:2]:
+                ctx.violation("free-running parallel epochs at GOMAXPROCS=%s: %s" % (procs, f.get("what")), "C16 epoch error " + str(f.get("signature")),
+                              {"kind": "race", "gomaxprocs": procs, "failure": f})
             n = out.count("WARNING: DATA RACE")
             if n:
                 first = out[out.index("WARNING: DATA RACE"):][:3000]
@@ -216,7 +223,10 @@ def epoch_traces_all(ctx, replay):
         return {}
     from concurrent.futures import ThreadPoolExecutor
     with ThreadPoolExecutor(max_workers=max(2, min(CORES - 2, 12))) as ex:
-        results = list(ex.map(lambda a: pipe_epoch.record_and_validate(ctx, a[0] + 300, a[1]), enumerate(groups)))
+        # "all processor counts": the recorder processes run with 1, 2 and all processors in turn
+        procs = [None, {"GOMAXPROCS": "1"}, {"GOMAXPROCS": "2"}]
+        results = list(ex.map(lambda a: pipe_epoch.record_and_validate(ctx, a[0] + 300, a[1], env=procs[a[0] % 3] if len(groups) > 1 else procs[1]),
+                              enumerate(groups)))
     stats = {}
     for res in results:
         ctx.traces += len(res["scs"])
